@@ -1,5 +1,10 @@
+import WmModel.Props.C07Locks
 import WmModel.Props.C11
 #print axioms Wm.GcTopic.exactly_one_sender
 #print axioms Wm.GcTopic.sender_count_eq
 #print axioms Wm.GcTopic.mid_publish
 #print axioms Wm.GcTopic.subscribe_excluded_during_publish
+#print axioms Wm.GcReg.writer_excludes_readers
+#print axioms Wm.GcReg.writers_exclusive
+#print axioms Wm.GcReg.topic_mutex_exclusive
+#print axioms Wm.GcReg.publish_and_subscribe_regions_exclusive
